@@ -40,6 +40,24 @@ CHECKS.update({
             "template instances (anchored by C05)", "DESIGN.md §4 C08"),
 })
 
+CHECKS.update({
+    "C11": ("exploration",
+            "bounded-exhaustive lattice (family x every subset of fixed parameters x fixed value x stage x method x "
+            "data set) on the real code",
+            "Every family incl. von Mises and ScipyDistribution subclasses, every non-empty subset of fixed parameters, "
+            "two fixed values each; construction, evaluation (vs an instance built with plain values), MLE/LSQ fit, "
+            "ConditionalDistribution.fit and GlobalHierarchicalModel.fit; fixed value to 1e-12 after fitting, free "
+            "parameters estimated, likelihood not decreased, fixed value for every conditioning value.",
+            "data sets are a fixed finite family (own-family and other-family samples)", "DESIGN.md §4 C11"),
+    "C13": ("exploration",
+            "bounded-exhaustive lattice (sample x zeros x ties x weight spec x weight scale x delta x method x data "
+            "order) on the real code against an independent weighted linear regression (numpy lstsq)",
+            "Every weight specification incl. arrays at four scales, fixed and free delta, four data orders with "
+            "weights travelling with their observations; alpha/beta to 1e-8 of the independent regression, free delta "
+            "a local minimiser of the x-space error, order invariance.",
+            "numpy.linalg.lstsq; plotting positions are full-sample ranks", "DESIGN.md §4 C13"),
+})
+
 NOT_APPLICABLE = {
 }
 
